@@ -605,7 +605,9 @@ impl Bgi {
     }
 
     pub fn set_line_thickness(&mut self, thickness: i32) {
-        self.line_thickness = thickness;
+        // BGI / RIPscrip know two pens, 1 (NORM_WIDTH) and 3 (THICK_WIDTH) pixels wide. A wider one is not
+        // defined, and the scan conversion of ovals and pie slices collects `thickness` points per step.
+        self.line_thickness = thickness.min(3);
     }
 
     pub fn set_line_pattern(&mut self, pattern: i32) {
